@@ -487,13 +487,15 @@ func (ndb *nodeDB) deleteVersion(version int64, cache *rootkeyCache) error {
 					return err
 				}
 			}
+			nk := orphan.GetKey()
 			if orphan.nodeKey.nonce == 1 && orphan.nodeKey.version < version {
 				// if the orphan is referred to the previous root, it should be reformatted
 				// to (version, 0), because the root (version, 1) should be removed but not
 				// applied now due to the batch writing.
-				orphan.nodeKey.nonce = 0
+				// The node itself is left untouched: it lives in the node cache, keyed by
+				// its node key, and may be shared with readers.
+				nk = (&NodeKey{version: orphan.nodeKey.version, nonce: 0}).GetKey()
 			}
-			nk := orphan.GetKey()
 			if orphan.isLegacy {
 				return ndb.deleteFromPruning(ndb.legacyNodeKey(nk))
 			}
@@ -527,8 +529,11 @@ func (ndb *nodeDB) deleteVersion(version int64, cache *rootkeyCache) error {
 		// the root should be reformatted to (version, 0); it is written before the
 		// original is deleted, so that the node stays reachable (GetNode falls back to
 		// (version, 0)) if the batch is flushed between the two writes.
-		root.nodeKey.nonce = 0
-		if err := ndb.saveNodeFromPruning(root); err != nil {
+		// A copy is re-keyed: the node itself lives in the node cache, keyed by its node
+		// key, and is shared with concurrent readers of the later versions.
+		rekeyed := *root
+		rekeyed.nodeKey = &NodeKey{version: root.nodeKey.version, nonce: 0}
+		if err := ndb.saveNodeFromPruning(&rekeyed); err != nil {
 			return err
 		}
 		// ensure that the given version is not included in the root search
